@@ -22,8 +22,26 @@ NOTIFY = ['parking_lot::Condvar::notify_one', 'parking_lot::Condvar::notify_all'
 CV_WAIT = ['parking_lot::Condvar::wait', 're:Condvar::wait(_for|_until|_while)?$']
 
 
-def sites_on(b, pats, field):
-    return [bi for bi, t in b.calls() if bi in b.normal_blocks() and call_matches(t, pats) and field in lib.receiver_fields(b, t, 0)]
+def sites_on(b, pats, field, lift=True):
+    """call sites of `b` that apply a call matching pats to `field` - directly, or by calling a crate helper every success path
+    of which does so (one level: `self.notify_log_queue_waiter()`)"""
+    direct = [bi for bi, t in b.calls() if bi in b.normal_blocks() and call_matches(t, pats) and field in lib.receiver_fields(b, t, 0)]
+    if not lift:
+        return direct
+    F = b.facts
+    res = list(direct)
+    for bi, t in b.calls():
+        if bi not in b.normal_blocks() or bi in direct:
+            continue
+        for n in call_names(t):
+            h = F.body(n)
+            if h is None or h.path == b.path:
+                continue
+            hs = sites_on(h, pats, field, lift=False)
+            if hs and lib.ok_return_unreachable_avoiding(h, hs, None, frozenset(), cut_errors=False) is None:
+                res.append(bi)
+                break
+    return res
 
 
 def run(ctx):
@@ -212,7 +230,7 @@ def run(ctx):
     # the log-queue throttle has no flag of its own: the waiter reads `shutdown` (and the byte count) and parks inside one critical
     # section of log_queue_wait.work, so every waker has to notify with that mutex held, else the notification can fall between
     # the waiter's test and its wait and is lost (F38: shutdown notified without the mutex; drop then joined the log worker forever)
-    nsites = [(b, x) for b in F.bodies.values() for x in sites_on(b, NOTIFY + ['parking_lot::Condvar::notify_all'], '.DbInner.log_queue_wait')]
+    nsites = [(b, x) for b in F.bodies.values() for x in sites_on(b, NOTIFY + ['parking_lot::Condvar::notify_all'], '.DbInner.log_queue_wait', lift=False)]
     ctx.ob('2i0 log-queue-wakers', 'anchor', 'db::DbInner', 'the wakers of the log-queue throttle were found (enact_logs, shutdown)', len(nsites) >= 2, str([(b.path, x) for b, x in nsites]))
     for b, x in nsites:
         lib.held_at(ctx, '2i log-queue-waiter-woken-under-its-mutex %s' % b.path, b, x, '.DbInner.log_queue_wait',
